@@ -29,12 +29,18 @@ Seconds == Standard \cup {"absent", "urn:verif:status:second", "Success"}
 Versions == {"1.0", "1.1", "2.0", "2.1", "3.0", "garbage", "2", "2.00", "+2.0", "nan", "2.0 "}
 Pre == {"ok", "badsig", "foreigndest"}        \* the checks that come before the status
 
+\* via: how the message reaches the SP -- a browser binding, or in a SOAP envelope (the synchronous hop skips the
+\* Destination check, nothing else).  kind "logout_response": one of the status-only response classes
+\* (parse_logout_request_response), which carry no assertion.
 Scn == [kind : {"response"}, top : Tops, second : Seconds, msg : BOOLEAN, asrt : {"none", "signed"},
-        version : Versions, pre : Pre]
+        version : Versions, pre : Pre, via : {"post", "soap"}]
        \cup [kind : {"request"}, top : {"Success"}, second : {"absent"}, msg : {FALSE}, asrt : {"none"},
-             version : Versions, pre : {"ok"}]
+             version : Versions, pre : {"ok"}, via : {"post"}]
+       \cup [kind : {"logout_response"}, top : Tops, second : Seconds, msg : BOOLEAN, asrt : {"none"},
+             version : {"2.0", "1.1", "2"}, pre : {"ok"}, via : {"post", "soap"}]
 \* versions other than 2.0 are combined with two status shapes only
-WellFormed(s) == s.version = "2.0" \/ s.second \in {"absent", "AuthnFailed"}
+WellFormed(s) == /\ s.version = "2.0" \/ s.second \in {"absent", "AuthnFailed"}
+                 /\ (s.via = "soap" /\ s.kind = "response" => s.pre # "foreigndest" /\ s.version = "2.0")
 
 VARIABLES scn, pc, verdict, exc
 vars == <<scn, pc, verdict, exc>>
@@ -47,6 +53,7 @@ Signature == pc = "signature" /\ IF scn.pre = "badsig" THEN Fail("SignatureError
 Version ==
     /\ pc = "version"
     /\ CASE scn.version = "2.0" -> Goto(IF scn.kind = "request" THEN "accept" ELSE "destination")
+         [] scn.kind = "logout_response" -> Fail(IF scn.version = "1.1" THEN "RequestVersionTooLow" ELSE "RequestVersionTooHigh")
          \* Request.verify turns the failed assertion into a None result
          [] scn.version \in {"1.0", "1.1"} -> Fail(IF scn.kind = "request" THEN "None" ELSE "RequestVersionTooLow")
          \* anything that is not the string "2.0" and reads as a number not below two counts as too high
@@ -60,7 +67,8 @@ Status ==
        ELSE IF scn.second = "absent" THEN Fail("StatusError")
        ELSE IF scn.second \in Standard THEN Fail(ClassOf[scn.second])
        ELSE Fail("KeyError")
-Assertion == pc = "assertion" /\ IF scn.asrt = "none" THEN Fail("Exception") ELSE Goto("accept")
+Assertion == pc = "assertion" /\ IF scn.kind = "logout_response" THEN Goto("accept")
+                                 ELSE IF scn.asrt = "none" THEN Fail("Exception") ELSE Goto("accept")
 Accept == pc = "accept" /\ verdict' = "accept" /\ pc' = "done" /\ UNCHANGED <<scn, exc>>
 
 (***************************************************************************)
@@ -70,7 +78,7 @@ MustReject == scn.top # "Success" \/ scn.version # "2.0"
 MustAccept == scn.top = "Success" /\ scn.second = "absent" /\ scn.version = "2.0" /\ scn.pre = "ok"
               /\ (scn.kind = "response" => scn.asrt = "signed")
 \* the error class that must reach the caller (responses that pass the earlier checks)
-ClassDecided == scn.kind = "response" /\ scn.top # "Success" /\ scn.version = "2.0" /\ scn.pre = "ok"
+ClassDecided == scn.kind \in {"response", "logout_response"} /\ scn.top # "Success" /\ scn.version = "2.0" /\ scn.pre = "ok"
 ExpectedClass == IF scn.second = "absent" THEN "StatusError"
                  ELSE IF scn.second \in Standard THEN ClassOf[scn.second] ELSE "generic"
 SpecificClasses == {ClassOf[c] : c \in Standard}
